@@ -31,17 +31,7 @@ EXTRA = [
 ]
 
 
-def to_markup(doc, rnd):
-    """mark up a plain document: <p> blocks, <i>/<em> around capitalised words, entities"""
-    words = doc.split(" ")
-    out = []
-    for w in words:
-        if w[:1].isupper() and rnd.random() < 0.35 and "<" not in w:
-            tag = rnd.choice(["i", "em"])
-            out.append(f"<{tag}>{w}</{tag}>")
-        else:
-            out.append(w.replace("&", "&amp;").replace("<", "&lt;"))
-    return "<p>" + " ".join(out) + "</p>"
+to_markup = gendocs.to_markup
 
 
 def main(pid):
